@@ -64,6 +64,20 @@ class Evaluator:
                 return 1 if CMP_NAMES[t[1].name](o) else 0
             except Unknown:
                 raise Unknown(show(t, maxdepth=3))
+        if h == "discr":
+            # discriminant of `a.cmp(&b)`: core::cmp::Ordering is Less = -1 (255 as the i8 switch value), Equal = 0, Greater = 1
+            inner = strip(t[1])
+            if inner[0] == "call" and inner[1].name == "cmp" and inner[1].get("trait") in CMP_TRAITS and len(inner[2]) == 2:
+                a = ("ord", strip(inner[2][0]), strip(inner[2][1]))
+                o = self.assign.get(a)
+                if o is None and ("ord", a[2], a[1]) in self.assign:
+                    o = {"L": "G", "G": "L", "E": "E"}[self.assign[("ord", a[2], a[1])]]
+                if o is not None:
+                    return {"L": 255, "E": 0, "G": 1}[o]
+            a = atom_of(t)
+            if a is not None and a in self.assign:
+                return self.assign[a]
+            raise Unknown(show(t, maxdepth=3))
         if h == "binop":
             op = t[1]
             a, b = self.ev(t[2]), self.ev(t[3])
@@ -141,6 +155,9 @@ def _atoms_in(d):
             out += _atoms_in(x)
         return out
     if h == "discr":
+        inner = strip(d[1])
+        if inner[0] == "call" and inner[1].name == "cmp" and inner[1].get("trait") in CMP_TRAITS and len(inner[2]) == 2:
+            return [("ord", strip(inner[2][0]), strip(inner[2][1]))]
         return [("discr", d[1])]
     a = atom_of(d)
     return [a] if a is not None else []
